@@ -64,7 +64,7 @@ where
 
 fn run_sut(case: &Value) -> Out {
     let pd = pd_from_json(&case["pd"]);
-    let l = inv_link(&pd);
+    let l = if case["mirror_api"].as_bool().unwrap_or(false) { inv_link(&pd).mirror() } else { inv_link(&pd) };
     let (h, t) = (case["h"].as_i64().unwrap(), case["t"].as_i64().unwrap());
     let reduced = case["reduced"].as_bool().unwrap();
     if case["ring"] == "FF2" {
@@ -100,6 +100,8 @@ fn dims(g: &Graded) -> BTreeMap<i32, usize> {
 
 fn oracle(case: &Value, out: &Out) -> Option<Violation> {
     let pd = pd_from_json(&case["pd"]);
+    // the reference always works on an explicit PD code of the diagram that was computed on
+    let pd = if case["mirror_api"].as_bool().unwrap_or(false) { diag::mirror(&pd) } else { pd };
     let (h, t) = (case["h"].as_i64().unwrap(), case["t"].as_i64().unwrap());
     let reduced = case["reduced"].as_bool().unwrap();
     let formal = case["ring"] != "FF2";
@@ -161,12 +163,14 @@ impl Check for C19 {
         let (name, pd) = **rng.pick(&cands);
         let mut pd = pd.to_vec();
         let mirror = rng.chance(1, 2);
-        if mirror { pd = diag::mirror(&pd); }
+        // half of the mirrored runs go through `InvLink::mirror()`, half through an own mirrored code
+        let mirror_api = mirror && rng.chance(1, 2);
+        if mirror && !mirror_api { pd = diag::mirror(&pd); }
         let pd = diag::permute_crossings(rng, &pd);
         let formal = rng.chance(1, 2);
         let (h, t) = if formal { (0, 0) } else { *rng.pick(&[(0, 0), (1, 0), (0, 1), (1, 1)]) };
         let reduced = t == 0 && rng.chance(1, 2);
-        json!({ "name": name, "mirror": mirror, "pd": pd_to_json(&pd), "ring": if formal { "FF2[H]" } else { "FF2" }, "h": h, "t": t, "reduced": reduced })
+        json!({ "name": name, "mirror": mirror, "mirror_api": mirror_api, "pd": pd_to_json(&pd), "ring": if formal { "FF2[H]" } else { "FF2" }, "h": h, "t": t, "reduced": reduced })
     }
     fn run_case(&self, case: &Value, ex: &mut Executor) -> RunReport {
         let mut rep = RunReport::default();
